@@ -151,7 +151,11 @@ func (s *Sim) hook(ev string, args ...any) {
 	}
 }
 
+// progress counts recorded events of all runs: the real-time watchdog of TestSim reads it
+var progress atomic.Int64
+
 func (s *Sim) record(role, ev string, args ...any) {
+	progress.Add(1)
 	s.mu.Lock()
 	s.raw = append(s.raw, rawEvent{role: role, ev: ev, args: args, t: s.now()})
 	s.mu.Unlock()
